@@ -212,9 +212,10 @@ func WorkerMain(t *testing.T) {
 		}
 		sort.Strings(out.States)
 		flush(&job, out)
-		if code >= 0 {
-			os.Exit(code)
+		if code < 0 {
+			code = 0
 		}
+		os.Exit(code)
 	}
 	var digest *os.File
 	if job.DigestOut != "" {
@@ -222,7 +223,7 @@ func WorkerMain(t *testing.T) {
 		defer digest.Close()
 	}
 	if job.Replay != nil {
-		ro := fn(t, &job, job.Replay.Seed, job.Replay)
+		ro := withRaceCheck(fn, out)(t, &job, job.Replay.Seed, job.Replay)
 		out.Runs = 1
 		if ro.Infra != "" {
 			out.Infra = append(out.Infra, ro.Infra)
@@ -231,6 +232,9 @@ func WorkerMain(t *testing.T) {
 			out.Violations = append(out.Violations, VioRec{Seed: job.Replay.Seed, Vio: *ro.Vio})
 		}
 		out.Samples = append(out.Samples, fmt.Sprintf("hash=%016x", ro.Hash))
+		if tf := os.Getenv("VERIF_TRACE"); tf != "" && ro.Replay != nil {
+			os.WriteFile(tf, []byte(strings.Join(ro.Replay.Trace, "\n")), 0o644)
+		}
 		finish(true, -1)
 		return
 	}
@@ -243,7 +247,7 @@ func WorkerMain(t *testing.T) {
 			break
 		}
 		seed := job.SeedBase + uint64(idx*job.Stride+job.Offset)
-		ro := fn(t, &job, seed, nil)
+		ro := withRaceCheck(fn, out)(t, &job, seed, nil)
 		out.NextIndex = idx + 1
 		if digest != nil {
 			v := ""
@@ -289,7 +293,7 @@ func WorkerMain(t *testing.T) {
 			default:
 				rec := VioRec{Seed: seed, Vio: *v}
 				if ro.Replay != nil {
-					rp := minimise(t, fn, &job, seed, ro)
+					rp := minimise(t, withRaceCheck(fn, out), &job, seed, ro)
 					rp.Clause, rp.Sig, rp.Detail = rp.Clause, rp.Sig, rp.Detail
 					b, _ := json.MarshalIndent(rp, "", " ")
 					path := fmt.Sprintf("%s.replay-%s-%d.json", job.Out, job.Prop, seed)
@@ -420,7 +424,50 @@ func schedConfig(seed uint64, rng *simrt.Rng) (simrt.Config, string) {
 		cfg.Policy = simrt.PolicyPriority
 		cfg.ChangePoints = rng.Range(1, 5)
 	}
+	if os.Getenv("VERIF_TRACE") != "" {
+		cfg.TraceLen, cfg.TraceTime = 20000, true
+	}
+	// idle jumps of up to a second are harmless now that timer wake-ups interrupt them
+	cfg.MinQuantum, cfg.MaxQuantum = 10*time.Millisecond, time.Second
+	if rng.Chance(0.4) {
+		cfg.StallP = []float64{0.01, 0.05, 0.2}[rng.Intn(3)]
+		cfg.StallMax = []time.Duration{200 * time.Microsecond, 5 * time.Millisecond, 30 * time.Millisecond}[rng.Intn(3)]
+	}
 	cfg.ShuffleMaps = rng.Chance(0.8)
 	cfg.ShuffleSelect = rng.Chance(0.8)
 	return cfg, cfg.Policy.String()
+}
+
+func shorten(s string, n int) string {
+	if len(s) > n {
+		return s[:n] + "..."
+	}
+	return s
+}
+
+// withRaceCheck wraps a world so that, in -race builds, what the race detector reported during a run
+// becomes that run's violation (C16) or, for reports without a frame in HIDI, an infrastructure error.
+func withRaceCheck(fn worldFn, out *Output) worldFn {
+	if !simrt.RaceBuild {
+		return fn
+	}
+	return func(t *testing.T, job *Job, seed uint64, rp *Replay) RunOut {
+		ro := fn(t, job, seed, rp)
+		for _, rep := range newRaceReports() {
+			out.Probes["race_reports"]++
+			if !rep.Hidi {
+				if ro.Infra == "" {
+					ro.Infra = "race report without a frame in HIDI (harness bug?):\n" + rep.Text
+				}
+				continue
+			}
+			if ro.Vio == nil {
+				ro.Vio = &Vio{Props: []string{"C16"}, Clause: "data_race", Sig: rep.Sig, Detail: "race detector (scheduler synchronisation hidden): " + rep.Sig + "\n" + shorten(rep.Text, 1800)}
+				if ro.Replay == nil {
+					ro.Replay = &Replay{World: job.World, Prop: job.Prop, Seed: seed, Tier: job.Tier}
+				}
+			}
+		}
+		return ro
+	}
 }
